@@ -96,6 +96,143 @@ def gen_c16(read, num):
     return lines, broken
 
 
+def _flag_expr_names(expr):
+    """names in `Self::A.bits() | Self::B.bits() | ...` (order kept)"""
+    return re.findall(r"Self\s*::\s*([A-Z][A-Z0-9_]*)\s*\.\s*bits\s*\(\s*\)", expr)
+
+
+def gen_c04(read, num):
+    """C04 part: every capability-flag constant of flags.rs (name -> value), the flag-set constants
+    (MANDATORY_OTP26 / DEFAULT / DEFAULT_HIDDEN as lists of member names, evaluated here as well), and the
+    handshake tag / version constants of handshake.rs. `Impl/Handshake.lean` uses these values instead of literals;
+    `Props/C04.lean` compares them with the protocol's table in `Spec/Handshake.lean`."""
+    broken = []
+    lines = []
+    flags = []      # (name, value)
+    sets = []       # (name, [member names])
+    src = read("crates/edp_client/src/flags.rs")
+    if src is None:
+        broken.append("flags.rs missing")
+    else:
+        m = re.search(r"bitflags!\s*\{", src)
+        body = _fn_body(src, r"bitflags!\s*\{") if m else None
+        if body is None:
+            broken.append("bitflags! { ... } block not found in flags.rs")
+        else:
+            if not re.search(r"pub\s+struct\s+DistributionFlags\s*:\s*u64\s*\{", body):
+                broken.append("`pub struct DistributionFlags: u64` not found inside bitflags!")
+            nocomment = re.sub(r"//[^\n]*", "", body)
+            decls = re.findall(r"\bconst\s+([A-Z][A-Z0-9_]*)\s*=\s*([^;]+);", nocomment)
+            for name, val in decls:
+                v = val.strip()
+                if not re.fullmatch(r"0[xX][0-9a-fA-F_]+|[0-9][0-9_]*", v):
+                    broken.append(f"flag {name}: value `{v}` is not a plain integer literal")
+                    continue
+                flags.append((name, int(v.replace("_", ""), 0)))
+            if len(decls) != len(re.findall(r"\bconst\b", nocomment)):
+                broken.append("a `const` inside bitflags! did not match `const NAME = <literal>;`")
+            if not flags:
+                broken.append("no flag constants found in bitflags!")
+        known = dict(flags)
+        sets_src = {name: expr for name, expr in
+                    re.findall(r"pub\s+const\s+([A-Z][A-Z0-9_]*)\s*:\s*Self\s*=\s*Self\s*::\s*from_bits_truncate\s*\(([^;]*)\)\s*;", src)}
+        for want in ("MANDATORY_OTP26", "DEFAULT", "DEFAULT_HIDDEN"):
+            if want not in sets_src:
+                broken.append(f"pub const {want}: Self = Self::from_bits_truncate(...) not found in flags.rs")
+        for name, expr in sets_src.items():
+            members = _flag_expr_names(expr)
+            parts = [t.strip() for t in re.sub(r"\s+", "", expr).rstrip(",").split("|")]
+            if len(parts) != len(members) or not members:
+                broken.append(f"flag set {name}: a term is not of the form Self::NAME.bits()")
+            for mname in members:
+                if mname not in known and mname not in sets_src:
+                    broken.append(f"flag set {name}: unknown member {mname}")
+            sets.append((name, members))
+        for fn, cst in (("default_otp26", "DEFAULT"), ("default_hidden", "DEFAULT_HIDDEN")):
+            if not re.search(r"pub\s+const\s+fn\s+" + fn + r"\s*\(\s*\)\s*->\s*Self\s*\{\s*Self\s*::\s*" + cst + r"\s*\}", src):
+                broken.append(f"fn {fn}() no longer returns Self::{cst}")
+        if not re.search(r"impl\s+Default\s+for\s+DistributionFlags\s*\{\s*fn\s+default\s*\(\s*\)\s*->\s*Self\s*\{\s*Self\s*::\s*default_otp26\s*\(\s*\)", src):
+            broken.append("impl Default for DistributionFlags no longer returns default_otp26()")
+    tags = []
+    hs = read("crates/edp_client/src/handshake.rs")
+    if hs is None:
+        broken.append("handshake.rs missing")
+    else:
+        found = dict(re.findall(r"const\s+(HANDSHAKE_TAG_[A-Z_]+)\s*:\s*u8\s*=\s*b'(.)'\s*;", hs))
+        for want in ("HANDSHAKE_TAG_N", "HANDSHAKE_TAG_N_OLD", "HANDSHAKE_TAG_S", "HANDSHAKE_TAG_A"):
+            if want not in found:
+                broken.append(f"const {want}: u8 = b'<c>'; not found in handshake.rs")
+        tags = [(k, ord(v)) for k, v in sorted(found.items())]
+        for want in ("PROTOCOL_VERSION", "PROTOCOL_VERSION_5"):
+            m = re.search(r"pub\s+const\s+" + want + r"\s*:\s*u16\s*=\s*([0-9_]+)\s*;", hs)
+            if not m:
+                broken.append(f"pub const {want}: u16 = <n>; not found in handshake.rs")
+            else:
+                tags.append((want, num(m.group(1))))
+        # tags written as byte literals in the encoders (the reply tag has no named constant)
+        m = re.search(r"impl\s+ChallengeReply\s*\{", hs)
+        rbody = _fn_body(hs, r"impl\s+ChallengeReply\s*\{") if m else None
+        mr = re.search(r"pub\s+fn\s+encode\s*\(\s*&self\s*\)[^{]*\{[^}]*?buf\.put_u8\(\s*b'(.)'\s*\)", rbody or "", re.S)
+        if not mr:
+            broken.append("ChallengeReply::encode: `buf.put_u8(b'<c>')` not found")
+        else:
+            tags.append(("HANDSHAKE_TAG_R_LITERAL", ord(mr.group(1))))
+    sm = read("crates/edp_client/src/state_machine.rs")
+    if sm is None:
+        broken.append("state_machine.rs missing")
+    else:
+        cbody = _fn_body(sm, r"pub\s+fn\s+prepare_complement\s*\(\s*&mut\s+self\s*\)[^{]*\{")
+        mc = re.search(r"buf\.put_u8\(\s*b'(.)'\s*\)", cbody or "")
+        if not mc:
+            broken.append("prepare_complement: `buf.put_u8(b'<c>')` not found")
+        else:
+            tags.append(("HANDSHAKE_TAG_C_LITERAL", ord(mc.group(1))))
+
+    known = dict(flags)
+    setvals = {}
+
+    def setval(name, seen=()):
+        if name in known:
+            return known[name]
+        if name in setvals:
+            return setvals[name]
+        if name in seen:
+            return 0
+        v = 0
+        for sn, members in sets:
+            if sn == name:
+                for mname in members:
+                    v |= setval(mname, seen + (name,))
+        setvals[name] = v
+        return v
+
+    lines.append("/-- every capability-flag constant of crates/edp_client/src/flags.rs (`bitflags!` block), in source order -/")
+    lines.append("def DIST_FLAGS : List (String × Nat) := [" + ", ".join(f'("{n}", {v})' for n, v in flags) + "]")
+    lines.append("")
+    for n, v in flags:
+        lines.append(f"def FLAG_{n} : Nat := {v}")
+    lines.append("")
+    lines.append("/-- the flag-set constants of flags.rs as the member names their definitions list -/")
+    lines.append("def DIST_FLAG_SETS : List (String × List String) := [" +
+                 ", ".join(f'("{n}", [' + ", ".join(f'"{m}"' for m in ms) + "])" for n, ms in sets) + "]")
+    lines.append("")
+    for n, _ in sets:
+        lines.append(f"/-- `DistributionFlags::{n}` evaluated (bitwise or of its members) -/")
+        lines.append(f"def FLAGSET_{n} : Nat := {setval(n)}")
+    for want in ("MANDATORY_OTP26", "DEFAULT", "DEFAULT_HIDDEN"):
+        if want not in [n for n, _ in sets]:
+            lines.append(f"def FLAGSET_{want} : Nat := 0")
+    lines.append("")
+    lines.append("/-- handshake tag / version constants of handshake.rs (and the two tags written as byte literals) -/")
+    lines.append("def HANDSHAKE_CONSTS : List (String × Nat) := [" + ", ".join(f'("{n}", {v})' for n, v in tags) + "]")
+    have = dict(tags)
+    for want in ("HANDSHAKE_TAG_N", "HANDSHAKE_TAG_N_OLD", "HANDSHAKE_TAG_S", "HANDSHAKE_TAG_A",
+                 "HANDSHAKE_TAG_R_LITERAL", "HANDSHAKE_TAG_C_LITERAL", "PROTOCOL_VERSION", "PROTOCOL_VERSION_5"):
+        lines.append(f"def {want} : Nat := {have.get(want, 0)}")
+    lines.append("")
+    return lines, broken
+
+
 def gen_c09(read, num):
     """C09 part: the constants of fragmentation.rs and the calls `Connection::receive_message` makes on its assembler."""
     broken = []
@@ -193,7 +330,7 @@ def gen_c09(read, num):
 def run(read, emit, num):
     body = "namespace Edp.Gen\n\n"
     broken = []
-    for part in (gen_c16, gen_c09):
+    for part in (gen_c16, gen_c09, gen_c04):
         ls, br = part(read, num)
         body += "\n".join(ls) + "\n"
         broken += br
